@@ -93,7 +93,7 @@ func (f *FileOutputHandler) Write(
 					Hash:      fileHash,
 					SizeBytes: fileInfo.Size(),
 				},
-				IsExecutable: fileInfo.Mode()&0111 != 0,
+				IsExecutable: isOwnerExecutable(fileInfo.Mode()),
 			},
 		},
 	}, nil
@@ -172,6 +172,13 @@ func (f *FileOutputHandler) Load(
 	return setExecutable(absOutputPath, output.GetFile().GetIsExecutable())
 }
 
+// isOwnerExecutable is what the cache records as "executable": the owner of the file may run it.
+// A file on which only the group or others hold an execute bit (0654, 0645) is not runnable by the
+// user who builds, so it must not pass for the executable that was cached.
+func isOwnerExecutable(mode os.FileMode) bool {
+	return mode&0100 != 0
+}
+
 // setExecutable makes the executable permission of the file at path match the cached flag.
 // The mode is only touched when it differs, using the same modes as directory outputs.
 func setExecutable(path string, isExecutable bool) error {
@@ -179,7 +186,7 @@ func setExecutable(path string, isExecutable bool) error {
 	if err != nil {
 		return err
 	}
-	if (info.Mode()&0111 != 0) == isExecutable {
+	if isOwnerExecutable(info.Mode()) == isExecutable {
 		return nil
 	}
 	mode := os.FileMode(0644)
